@@ -53,7 +53,19 @@ def _on_alarm(signum, frame):
 
 def impl_parse(export, text, parser=None):
     """one parse by the real parser, bounded in time: a parse that does not come back within PARSE_LIMIT_S (for
-    instance a token pattern that backtracks without end) is reported as such instead of hanging the check"""
+    instance a token pattern that backtracks without end) is reported as such instead of hanging the check.  Because the
+    clock is the wall clock (a loaded machine, a long garbage collection in a process holding gigabytes of parser tables),
+    a parse that ran out of time is tried once more with twelve times the limit before it is called endless."""
+    r = _bounded_parse(export, text, parser, PARSE_LIMIT_S if _timeouts[0] < 2 else 2.0)
+    if r is None:
+        r = _bounded_parse(export, text, parser, 12 * PARSE_LIMIT_S if _timeouts[0] < 2 else 4.0)
+        if r is None:
+            _timeouts[0] += 1
+            return {'error': 'other: no result within %d s' % (12 * PARSE_LIMIT_S)}
+    return r
+
+
+def _bounded_parse(export, text, parser, limit):
     import signal
     import threading
     from pysmi import error
@@ -61,7 +73,7 @@ def impl_parse(export, text, parser=None):
     timed = threading.current_thread() is threading.main_thread()
     if timed:
         old = signal.signal(signal.SIGALRM, _on_alarm)
-        signal.setitimer(signal.ITIMER_REAL, PARSE_LIMIT_S if _timeouts[0] < 2 else 2.0)
+        signal.setitimer(signal.ITIMER_REAL, limit)
     try:
         try:
             return {'ast': grammar.ast_to_json(p.parse(text))}
@@ -69,12 +81,11 @@ def impl_parse(export, text, parser=None):
             if timed:
                 signal.setitimer(signal.ITIMER_REAL, 0)
     except ParseTimeout:
-        _timeouts[0] += 1
         try:
             p.reset()
         except Exception:
             pass
-        return {'error': 'other: no result within %d s' % PARSE_LIMIT_S}
+        return None
     except error.PySmiParserError as e:
         return {'error': 'parser', 'line': e.lineno}
     except error.PySmiLexerError as e:
